@@ -232,4 +232,42 @@ theorem pathsK_nodup (c : RefCfg) (rp : List Name) (d : Nat) (kids : List (Node 
     exact hne k hk (append_cons_cancel he1)
 end
 
+/-! ## the traversal order changes the order only
+
+Two configurations that differ at most in `depthFirst` list the same entries, each as often -/
+
+mutual
+theorem pathsN_order_perm (c c' : RefCfg) (hmin : c'.minDepth = c.minDepth) (hmax : c'.maxDepth = c.maxDepth)
+    (hf : c'.follow = c.follow) (rp : List Name) (d : Nat) (n : Node α) :
+    (pathsN c' rp d n).Perm (pathsN c rp d n) := by
+  have hfol : ∀ k, c'.follows k = c.follows k := fun k => by simp [RefCfg.follows, hf]
+  have hself : selfPath c' rp d = selfPath c rp d := by simp [selfPath, inRange, hmin, hmax]
+  match n with
+  | .leaf nm k a => rw [pathsN, pathsN, hfol, hself]
+  | .dir nm l r a kids =>
+    have hk := pathsK_order_perm c c' hmin hmax hf rp (d + 1) kids
+    rw [pathsN, pathsN, hfol, hself, hmax]
+    have hb : (if (!l || c.follows d) && decide (d < c.maxDepth) then (if r then pathsK c' rp (d + 1) kids else []) else []).Perm
+        (if (!l || c.follows d) && decide (d < c.maxDepth) then (if r then pathsK c rp (d + 1) kids else []) else []) := by
+      split
+      · split
+        · exact hk
+        · exact List.Perm.refl _
+      · exact List.Perm.refl _
+    cases c'.depthFirst <;> cases c.depthFirst <;> simp only [Bool.false_eq_true, if_false, if_true]
+    · exact List.Perm.append (List.Perm.refl _) hb
+    · exact (List.Perm.append (List.Perm.refl _) hb).trans List.perm_append_comm
+    · exact (List.Perm.append hb (List.Perm.refl _)).trans List.perm_append_comm
+    · exact List.Perm.append hb (List.Perm.refl _)
+theorem pathsK_order_perm (c c' : RefCfg) (hmin : c'.minDepth = c.minDepth) (hmax : c'.maxDepth = c.maxDepth)
+    (hf : c'.follow = c.follow) (rp : List Name) (d : Nat) (kids : List (Node α)) :
+    (pathsK c' rp d kids).Perm (pathsK c rp d kids) := by
+  match kids with
+  | [] => rw [pathsK, pathsK]
+  | n :: ns =>
+    rw [pathsK, pathsK]
+    exact List.Perm.append (pathsN_order_perm c c' hmin hmax hf (n.name :: rp) d n)
+      (pathsK_order_perm c c' hmin hmax hf rp d ns)
+end
+
 end FuModel.Find.Walk
